@@ -125,8 +125,8 @@ def lake_build(prop):
     lock = open(os.path.join(LEAN, ".build.lock"), "w")
     fcntl.flock(lock, fcntl.LOCK_EX)
     try:
-        sh([sys.executable, os.path.join(VERIF, "tools", "gen_roots.py")], cwd=VERIF)
         ok_tables, tmsg = regenerate_tables()
+        sh([sys.executable, os.path.join(VERIF, "tools", "gen_roots.py")], cwd=VERIF)
         t0 = time.time()
         rc, out = sh(["lake", "build"] + targets, cwd=LEAN, timeout=3000)
         return ok_tables, tmsg, rc, out, time.time() - t0
